@@ -62,6 +62,9 @@ def gen_edits(rng, model: dict, nvar: int, max_nbr: int) -> list[dict]:
         elif k < 0.84:
             # the neighbor gains (or loses) an address family together with a configured route of that family
             edits.append({'e': 'tgl-family', 'n': i, 'v': rng.randint(0, nvar - 1)})
+        elif k < 0.87:
+            # a second helper process section appears in (or disappears from) the file
+            edits.append({'e': 'tgl-proc', 'n': i})
         elif k < 0.92:
             edits.append({'e': 'del-nbr', 'n': i})
         else:
@@ -79,6 +82,9 @@ def apply_edits(model: dict, edits: list[dict]) -> dict:
     for e in edits:
         nb = m['neighbors'].get(e['n'])
         k = e['e']
+        if k == 'tgl-proc':
+            m['h2'] = not m.get('h2', False)
+            continue
         if k == 'add-nbr':
             if e['n'] not in m['neighbors']:
                 m['neighbors'][e['n']] = {'idx': int(e['n']), 'hold': 90, 'routes': {'192.0.9.0/24': {'nh': 'self', 'v': 0}}}
@@ -120,7 +126,7 @@ def model_text(model: dict, variants) -> str:
                 'families': [(1, 1)] + ([(2, 1)] if nb.get('v6') else []), 'adj-rib-out': nb.get('aro', True), 'api': {'processes': ['h1']}, 'static': static,
             }
         )  # fmt: skip
-    return config_text([{'name': 'h1'}], confs)
+    return config_text([{'name': 'h1'}] + ([{'name': 'h2'}] if model.get('h2') else []), confs)
 
 
 def break_text(text: str, fault: dict) -> tuple[str, tuple | None]:
@@ -274,6 +280,8 @@ def execute(plan: dict) -> dict:
             'sess': {i: (speakers[i].established().index if speakers[i].established() else None) for i in range(3)},
             'tx': len(w.net.tx_log),
             'mono': w.loop.mono,
+            'procs': sorted(w.reactor.processes._process.keys()),
+            'spawned': len(w.procs.spawned),
         }
 
     def sessions_ok(mdl: dict) -> bool:
@@ -476,6 +484,13 @@ def execute(plan: dict) -> dict:
                 st['stable'] = st['stable'] + 1 if ready else 0
                 if st['stable'] >= 4:
                     check_tables(model, 'successful-reload')
+                    if not violations and not st.get('api_unknown'):
+                        want_procs = ['h1'] + (['h2'] if model.get('h2') else [])
+                        have_procs = sorted(w.reactor.processes._process.keys())
+                        if have_procs != want_procs:
+                            violations.append(viol('C17/processes-after-successful-reload', f'the new configuration defines the helper processes {want_procs}, running after the reload: {have_procs}'))
+                        elif h.generation != 1:
+                            violations.append(viol('C17/unchanged-helper-restarted', f'the helper h1, whose section did not change, was started {h.generation} times'))
                     if not violations:
                         for i in st.get('removed', []):
                             if speakers[i].established() is not None:
@@ -548,6 +563,9 @@ def execute(plan: dict) -> dict:
             return
         if a['holds'] != b['holds']:
             violations.append(viol('C17/failed-reload-changed-parameters', f'hold times after {a["holds"]} before {b["holds"]}'))
+            return
+        if a['procs'] != b['procs'] or a['spawned'] != b['spawned']:
+            violations.append(viol('C17/failed-reload-changed-processes', f'a reload that failed left the helper processes {a["procs"]} ({a["spawned"]} started so far), before it {b["procs"]} ({b["spawned"]})'))
             return
         died = {nb['idx'] for k, nb in model['neighbors'].items() if plan['steps'][st['step']]['sessions'].get(str(nb['idx'])) == 'die'}
         for i in range(3):
